@@ -209,6 +209,15 @@ func rpcProg(k, n int) prog {
 	}}
 }
 
+// aged: the thread first lets one second of (virtual) time pass - what it then finds in the cache
+// is no longer "of this second"
+func aged(p prog) prog {
+	return prog{"after 1 s: " + p.name, func(e *env, c *flowh.Caches, tid int, rec func(opRec)) {
+		sched.Sleep(1e9)
+		p.run(e, c, tid, rec)
+	}}
+}
+
 func dmpProg(file string) prog {
 	return prog{"dump+load", func(e *env, c *flowh.Caches, tid int, rec func(opRec)) {
 		p := filepath.Join(tmpDirGet(), file)
@@ -293,6 +302,8 @@ func scenarios() []scenario {
 	add("data|peer-get|other-same-shard", true, datProg(0, 2), rpcProg(0, 1), annProg(1, 2))
 	add("announce|dump|peer-get", true, annProg(0, 1, 2), dmpProg("a.json"), rpcProg(0, 2))
 	add("data|data|announce", false, datProg(0, 2), datProg(0, 2), annProg(0, 1, 2))
+	add("aged data|aged data|aged dump", false, aged(datProg(0, 1)), aged(datProg(0, 1)), aged(dmpProg("a.json")))
+	add("aged data|aged peer-get|announce", true, aged(datProg(0, 1)), aged(rpcProg(0, 1)), annProg(0, 1))
 	add("two-templates-in-one-set|data|data", false, annMultiProg(0, 1, 3, 4), datProg(0, 2), datProg(3, 2))
 	add("two-templates-in-one-set|dump|peer-get", true, annMultiProg(0, 2, 3, 3), dmpProg("a.json"), rpcProg(0, 2))
 	add("two-templates-in-one-set|dump|data", false, annMultiProg(0, 2, 3, 3), dmpProg("a.json"), datProg(0, 2))
@@ -465,8 +476,24 @@ func schedSpace(tier string) mck.Space {
 			}
 			return -1
 		}
+		// k0 and its same-shard neighbour are chosen text-ambiguous ("10.0.0.1"+"2256" = "10.0.0.12"+"256"):
+		// distinct as (address, id), equal under a key derived carelessly from their text forms
+	search:
+		for id := 256; id < 1000; id++ {
+			for d := 1; d <= 9; d++ {
+				a := key{net.ParseIP("10.0.0.1"), uint16(d*1000 + id)}
+				b := key{net.ParseIP(fmt.Sprintf("10.0.0.1%d", d)), uint16(id)}
+				if shardOf(a) == shardOf(b) {
+					k0 = a
+					e.keys = []key{k0, b, {}, {k0.addr, 257}}
+					break search
+				}
+			}
+		}
 		s0 := shardOf(k0)
-		e.keys = []key{k0, {}, {}, {k0.addr, 257}}
+		if e.keys == nil {
+			e.keys = []key{k0, {}, {}, {k0.addr, 257}}
+		}
 		for i := 1; i < 250 && (e.keys[1].addr == nil || e.keys[2].addr == nil); i++ {
 			k := key{net.ParseIP(fmt.Sprintf("198.51.100.%d", i)), 256}
 			if s := shardOf(k); s == s0 && e.keys[1].addr == nil {
